@@ -225,8 +225,8 @@ class Ctx:
         if self.witness is None:
             return
         n = self.c["paths"]
-        cap = self.scen.replay_cap
-        take = n <= cap or self.rng.random() < cap / (4.0 * n)
+        cap = self.scen.replay_cap                      # per process-task: first few paths, then a thinning random sample
+        take = n <= max(2, cap // 12) or self.rng.random() < cap / (12.0 * n)
         if len(self.samples) < 3 or take:
             m = eng.model
             cw = conc(m, self.witness)
